@@ -480,7 +480,7 @@ def stage_a(ctx):
             ctx.violation('C17/spec/%s/%s' % (front, r.violated), 'TLC: %s violated in NfdReg (%s/%s, correct design)' % (
                 r.violated, front, name), {'trace': r.errtrace})
         for a, (d, t) in r.coverage.items():
-            cov[a] = cov.get(a, 0) + d
+            cov[a] = cov.get(a, 0) + t
     for a in INTERNAL + sorted(ENV):
         if cov.get(a, 0) == 0:
             raise tlc.MachineryError('vacuous: action %s never taken in stage A' % a)
